@@ -23,7 +23,9 @@ def host_source(stack):
 def build_host(workdir, stack, tag):
     """Returns (entry callable, app_root, {'file','line'} of the tracepoint, expected frames top first)."""
     app_dir = os.path.join(workdir, 'app_%s' % tag)
-    lib_dir = os.path.join(workdir, 'lib_%s' % tag)
+    # the other files live INSIDE the application root, in a directory the configuration excludes (a virtual environment
+    # or vendored code in the project directory): exclusion wins over the root
+    lib_dir = os.path.join(app_dir, 'lib_%s' % tag)
     os.makedirs(app_dir, exist_ok=True)
     os.makedirs(lib_dir, exist_ok=True)
     app_name = 'vapp_%s' % tag
@@ -105,9 +107,12 @@ def run_case(workdir, stack, tps, expire, tag, flipped=False):
     directory - every frame's app flag and short path read the other way round."""
     from deep.api.tracepoint.trigger import LocationAction, LineLocation, Trigger, Location
     entry, app_dir, tp, expected, mods = build_host(workdir, stack, tag)
+    lib_dir = os.path.join(app_dir, 'lib_%s' % tag)
     if flipped:
-        app_dir = os.path.join(workdir, 'lib_%s' % tag)
-    rg = R.Rig(app_root=app_dir)
+        app_dir = lib_dir
+        rg = R.Rig(app_root=app_dir)
+    else:
+        rg = R.Rig(app_root=app_dir, custom={'IN_APP_EXCLUDE': [lib_dir]})
     problems = []
     try:
         base = os.path.basename(tp['file'])
@@ -215,7 +220,8 @@ def compare(stack, tps, expire, reference, expected, snaps, app_dir, should_coll
                     out.append('tp-%d frame %d app flag %s, expected %s' % (i + 1, idx, f['app'], stack[idx]['app']))
                 if stack[idx]['app'] and f['short'] != f['file'][len(app_dir):]:
                     out.append('tp-%d frame %d short path %r' % (i + 1, idx, f['short']))
-                if not stack[idx]['app'] and f['short'] != f['file'] and not f['file'].startswith(sys.exec_prefix):
+                if not stack[idx]['app'] and f['short'] not in (f['file'], f['file'][len(os.path.dirname(f['file'])):]) \
+                        and not f['file'].startswith(sys.exec_prefix):
                     out.append('tp-%d frame %d (not app) short path %r' % (i + 1, idx, f['short']))
                 want = r['locals'] if (should_collect(t['ft'], idx) and idx < expire) else []
                 if f['vars'] != want:
